@@ -303,10 +303,10 @@ def lvh_count(ctx, dev) -> None:
     if cnt is None:
         ctx.rep.inconclusive(rule, cb, "cannot identify the counter printed into the `LVH steps` label", where=f.where())
         return
-    if len(cands) != 1 or not isinstance(cands[0].ast.targets[0], ast.Name):
+    if len(cands) != 1:
         ctx.rep.inconclusive(rule, cb, "list of per-well step lists not found", where=f.where())
         return
-    L = cands[0].ast.targets[0].id
+    L = cands[0].name
     # the step counter handed to condense_log (its meaning - one per executed pair - is C11.condense-count)
     counters = set()
     for cs in fv.calls():
